@@ -229,6 +229,7 @@ type Node struct {
 	lis   *bufconn.Listener
 	srv   *grpc.Server
 	conns map[uint64]*grpc.ClientConn
+	dialMu chanMutex
 	wg    sync.WaitGroup
 
 	Consumed   []uint64
@@ -237,10 +238,9 @@ type Node struct {
 }
 
 func (n *Node) dial(target *Node) *grpc.ClientConn {
-	n.w.mu.Lock()
-	c := n.conns[target.ID]
-	n.w.mu.Unlock()
-	if c != nil {
+	n.dialMu.Lock() // one connection per peer even when two publishes dial at once (a second one would leak past stop())
+	defer n.dialMu.Unlock()
+	if c := n.conns[target.ID]; c != nil {
 		return c
 	}
 	c, err := grpc.Dial("bufnet", grpc.WithInsecure(), grpc.WithContextDialer(func(ctx context.Context, _ string) (net.Conn, error) {
@@ -249,9 +249,7 @@ func (n *Node) dial(target *Node) *grpc.ClientConn {
 	if err != nil {
 		panic(err)
 	}
-	n.w.mu.Lock()
 	n.conns[target.ID] = c
-	n.w.mu.Unlock()
 	return c
 }
 
@@ -743,3 +741,14 @@ func decodeSessions(b []byte) map[string]bool {
 	}
 	return out
 }
+
+
+// chanMutex is a mutex built on a channel: unlike sync.Mutex, blocking on it is "durably blocked" for testing/synctest.
+type chanMutex struct {
+	once sync.Once
+	ch   chan struct{}
+}
+
+func (m *chanMutex) init()   { m.once.Do(func() { m.ch = make(chan struct{}, 1) }) }
+func (m *chanMutex) Lock()   { m.init(); m.ch <- struct{}{} }
+func (m *chanMutex) Unlock() { <-m.ch }
